@@ -17,10 +17,29 @@ import (
 // flow through a real Pipeline. Generator, scripted kinds and observer are the
 // shared code compiled into package pipeline for the verification build.
 
-func c02GFRun(gfYAML string, gen int, main *pipeline.Pipeline, ctx *context.Context) bool {
+func c02GFRun(gfYAML, prevYAML string, gen int, main *pipeline.Pipeline, ctx *context.Context) bool {
 	ss, err := supervisor.NewSpec(gfYAML)
 	if err != nil {
 		return false
+	}
+	if prevYAML != "" {
+		// update of the GlobalFilter object: generation g0 from the previous
+		// spec, generation g1 Inherits from it and handles
+		gf := &GlobalFilter{}
+		pipeline.VfC02SetTag("g1")
+		if ss0, err0 := supervisor.NewSpec(prevYAML); err0 == nil {
+			gf0 := &GlobalFilter{}
+			pipeline.VfC02SetTag("g0")
+			gf0.Init(ss0)
+			pipeline.VfC02SetTag("g1")
+			gf.Inherit(ss, gf0)
+			gf0.Close()
+		} else {
+			gf.Init(ss)
+		}
+		pipeline.VfC02SetTag("")
+		gf.Handle(ctx, main)
+		return true
 	}
 	gf := &GlobalFilter{}
 	gf.Init(ss)
